@@ -333,3 +333,111 @@ func checkDestinationStoreOrder(c *Ctx) {
 		r.OK("C36.R6", fid, "legacy /Dests lookup", p.Pos(fn.Pos()), "no legacy lookup: only the name tree is consulted", true)
 	}
 }
+
+// ---------------- C36.R7 / R8 (round 4 seeds C36-G, C36-H) ----------------
+
+// constSet: the set of integer constants v can take, through φ and additions / ors of such values (nil = unknown).
+func constSet(v ssa.Value, d int) map[int64]bool {
+	if d > 8 {
+		return nil
+	}
+	switch x := v.(type) {
+	case *ssa.Const:
+		if k, ok := c31ConstInt(x); ok {
+			return map[int64]bool{k: true}
+		}
+	case *ssa.Convert:
+		return constSet(x.X, d+1)
+	case *ssa.Phi:
+		out := map[int64]bool{}
+		for _, e := range x.Edges {
+			s := constSet(e, d+1)
+			if s == nil {
+				return nil
+			}
+			for k := range s {
+				out[k] = true
+			}
+		}
+		return out
+	case *ssa.BinOp:
+		a, b := constSet(x.X, d+1), constSet(x.Y, d+1)
+		if a == nil || b == nil {
+			return nil
+		}
+		out := map[int64]bool{}
+		for i := range a {
+			for j := range b {
+				switch x.Op {
+				case token.ADD:
+					out[i+j] = true
+				case token.OR:
+					out[i|j] = true
+				default:
+					return nil
+				}
+			}
+		}
+		return out
+	}
+	return nil
+}
+
+func checkC36Round4(c *Ctx) {
+	p, r := c.P, c.R
+	// R7: titles are text strings; the writer's UTF-16 encoder hands the text to unicode/utf16 (surrogate pairs for
+	// characters outside the BMP) — the same obligation as C13.R2, decided here because a bookmark title is where such
+	// characters (emoji) turn up.
+	if fn := p.Func("pkg/pdfcpu/types.EncodeUTF16String"); fn == nil {
+		r.Bad("C36.R7", "pkg/pdfcpu/types.EncodeUTF16String", "anchor", "", "UNRESOLVED-ANCHOR")
+	} else {
+		uses := false
+		eachInstr(fn, func(_ *ssa.BasicBlock, _ int, i ssa.Instruction) {
+			if call, ok := i.(*ssa.Call); ok {
+				if _, ref := callRef(call); ref == "unicode/utf16.Encode" || ref == "unicode/utf16.AppendRune" || ref == "unicode/utf16.EncodeRune" {
+					uses = true
+				}
+			}
+		})
+		if uses {
+			r.OK("C36.R7", FuncID(fn), "surrogate pairs", p.Pos(fn.Pos()), "the encoder delegates to unicode/utf16", true)
+		} else {
+			r.Bad("C36.R7", FuncID(fn), "surrogate pairs", p.Pos(fn.Pos()), "the UTF-16 encoder does not go through unicode/utf16: a title with a character outside the BMP is written without its surrogate pair and does not read back as the title in the JSON")
+		}
+	}
+	// R8: the style of an outline item is the flag word /F: bit 0 italic, bit 1 bold (ISO 32000 12.3.3), independent of
+	// each other. Bookmark.Style can return every combination: the set of constants it can return is {0, 1, 2, 3}.
+	if fn := p.Func("pkg/pdfcpu.(Bookmark).Style"); fn == nil {
+		r.Bad("C36.R8", "pkg/pdfcpu.(Bookmark).Style", "anchor", "", "UNRESOLVED-ANCHOR")
+	} else {
+		got := map[int64]bool{}
+		decided := true
+		for _, ret := range returnsOf(fn) {
+			if len(ret.Results) != 1 {
+				continue
+			}
+			s := constSet(ret.Results[0], 0)
+			if s == nil {
+				decided = false
+				continue
+			}
+			for k := range s {
+				got[k] = true
+			}
+		}
+		var ks []string
+		for _, k := range []int64{0, 1, 2, 3, 4, 5, 6, 7} {
+			if got[k] {
+				ks = append(ks, fmt.Sprint(k))
+			}
+		}
+		switch {
+		case !decided:
+			r.Bad("C36.R8", FuncID(fn), "style flags", p.Pos(fn.Pos()), "UNDECIDED: the returned flag word is not built from constants by additions / ors")
+		case len(got) == 4 && got[0] && got[1] && got[2] && got[3]:
+			r.OK("C36.R8", FuncID(fn), "style flags", p.Pos(fn.Pos()), "can return 0, 1, 2 and 3: italic and bold are independent bits", true)
+		default:
+			r.Bad("C36.R8", FuncID(fn), "style flags", p.Pos(fn.Pos()), "Style can return {"+strings.Join(ks, ", ")+"}, the flag word has the independent bits 1 (italic) and 2 (bold), i.e. {0, 1, 2, 3}: a bookmark that is bold and italic is written with one of the two and exports differently from the JSON it was imported from")
+		}
+	}
+}
